@@ -505,7 +505,7 @@ def c13_rules(m):
         if not ok:
             r.fail("include|accept|%s" % text, "the INCLUDE line %r is not recognised, or its file name is extracted as %r instead of %r"
                    % (text, got, want), m.loc(nx))
-    for text in ("include", "include 'a' x", "include a.inc", "x = include 'a'", "include ''", "included 'a'"):
+    for text in ("include", "include 'a' x", "include a.inc", "include abc", "x = include 'a'", "include ''", "included 'a'"):
         r.instances += 1
         ok = rx(text) is None or text == "included 'a'" and False
         if text == "included 'a'":
